@@ -607,6 +607,64 @@ def check_ld_loop(run, repo):
         run.violation('C15-L', fi.relpath, fi.qualname, 'level loop polarity', why)
 
 
+def check_ld_base_select(run, repo):
+    """C15-B  long-descriptor stage-1 base selection: the TTBR0 arm reads only the '0' fields of TTBCR (T0SZ, EPD0, IRGN0,
+    ORGN0, SH0) and TTBR0, the TTBR1 arm only the '1' fields and TTBR1, the size locals come from the matching TnSZ, and the two
+    arms are the same template under that renaming (sibling agreement)."""
+    fi = repo.method('ArmV6', 'translation_table_walk_ld')
+    fn = fi.qualname
+    arms = {}
+    for node in ast.walk(fi.node):
+        if isinstance(node, ast.If):
+            txt = ast.unparse(ast.Module(body=node.body, type_ignores=[]))
+            for k in ('0', '1'):
+                if ('self.registers.ttbr%s_64' % k) in txt and ('self.registers.ttbr%s_64' % ('1' if k == '0' else '0')) not in txt:
+                    arms[k] = node
+    ok = True
+    if set(arms) != {'0', '1'}:
+        raise AnalysisError('translation_table_walk_ld: TTBR0 / TTBR1 base-selection arms not found')
+    sized = {}
+    for node in ast.walk(fi.node):
+        if isinstance(node, ast.Assign) and len(node.targets) == 1 and isinstance(node.targets[0], ast.Name):
+            v = ast.unparse(node.value)
+            if v.startswith('self.registers.ttbcr.t') and v.endswith('sz'):
+                sized.setdefault(node.targets[0].id, set()).add(v[-3])
+    for k, node in sorted(arms.items()):
+        o = '1' if k == '0' else '0'
+        region = [node.test] + node.body
+        for part in region:
+            for a in ast.walk(part):
+                if isinstance(a, ast.Attribute) and ast.unparse(a.value) == 'self.registers.ttbcr':
+                    f = a.attr
+                    if f[-1] == o or (f[:-1].endswith('sz') is False and f in ('t%ssz' % o,)):
+                        ok = False
+                        run.violation('C15-B', fi.relpath, fn, 'TTBR%s arm reads TTBCR.%s' % (k, f.upper()),
+                                      'the TTBR%s arm of the long-descriptor base selection reads TTBCR.%s, a field of the other translation '
+                                      'table base (wrong start level / region size / attributes for the TTBR%s region)' % (k, f.upper(), k))
+                if isinstance(a, ast.Name) and a.id in sized and sized[a.id] == {o}:
+                    ok = False
+                    run.violation('C15-B', fi.relpath, fn, 'TTBR%s arm uses %s' % (k, a.id),
+                                  'the TTBR%s arm uses `%s`, which holds TTBCR.T%sSZ' % (k, a.id, o))
+    # sibling agreement under the renaming 0 <-> 1
+    def canon(node, k):
+        import re as _re
+        t = ast.unparse(ast.Module(body=node.body, type_ignores=[]))
+        t = _re.sub(r'\b(t)%s(sz|_size)\b' % k, r'\1#\2', t)
+        t = _re.sub(r'\b(ttbr)%s(_64)\b' % k, r'\1#\2', t)
+        t = _re.sub(r'\b(epd|irgn|orgn|sh)%s\b' % k, r'\1#', t)
+        t = _re.sub(r'(bit_at\([^()]*(?:\([^()]*\))?[^()]*\)) == 1\b', r'\1', t)
+        return t
+    a0, a1 = canon(arms['0'], '0'), canon(arms['1'], '1')
+    if a0 != a1:
+        l0, l1 = a0.splitlines(), a1.splitlines()
+        diff = [(x, y) for x, y in zip(l0, l1) if x != y][:1] or [('%d statements' % len(l0), '%d statements' % len(l1))]
+        ok = False
+        run.violation('C15-B', fi.relpath, fn, 'TTBR0 / TTBR1 arms disagree',
+                      'the two base-selection arms are not the same template under the renaming 0 <-> 1: `%s` vs `%s`' % (
+                          diff[0][0].strip()[:80], diff[0][1].strip()[:80]))
+    run.instance('C15-B', 'long-descriptor TTBR0/TTBR1 base selection', obligations=3, ok=ok, sample={'function': fn})
+
+
 def main(repo_path, tier, seed, replay=None):
     run = Run('C15', tier, level='other', seed=seed)
     repo = Repo(repo_path)
@@ -618,6 +676,7 @@ def main(repo_path, tier, seed, replay=None):
     check_flat_and_fcse(run, repo)
     check_compose(run, repo)
     check_ld_loop(run, repo)
+    check_ld_base_select(run, repo)
     # positive control: one descriptor slice moved by a bit (in memory)
     fi = repo.method('ArmV6', 'translation_table_walk_sd')
     src = fi.module.source
@@ -635,7 +694,7 @@ def main(repo_path, tier, seed, replay=None):
         what = 'section base slice l1desc[31:20] -> [31:21]'
     run.control('C15-S descriptor slice moved', fired, what)
     run.exhaustive = True
-    run.undecided = ['long-descriptor walk beyond the loop polarity (descriptor wiring per level, attribute inheritance)',
+    run.undecided = ['long-descriptor walk beyond the loop polarity and the TTBR0/TTBR1 base-selection symmetry (descriptor wiring per level, attribute inheritance)',
                      'memory attribute decoding (TEX remap / MAIR) beyond the bits handed to it', 'stage-2 translation',
                      'big-endian (SCTLR.EE) descriptor fetch is compared in the EE = 0 world only']
     run.assumptions = ['reference: TranslationTableWalkSD, CheckDomain, EncodeSDFSR/LDFSR, DataAbort, FCSETranslate, '
@@ -645,5 +704,5 @@ def main(repo_path, tier, seed, replay=None):
         'compared with the reference format (descriptor addresses for N = 0..7, type decision table, fault type/level/domain, '
         'resulting PA / domain / AP / XN / PXN / nG / NS / level / block size, attribute bits). Fault-status encodings, the VMSA '
         'arm of DataAbort, CheckDomain, FCSE, the MMU-off flat map and the dispatch inside TranslateAddressV are exact tables. '
-        'The long-descriptor walk is only judged on its loop structure.',
+        'The long-descriptor walk is judged on its loop structure and on the TTBR0/TTBR1 base-selection arms (field families, sibling agreement).',
         './check C15 --tier %s' % tier)
